@@ -322,6 +322,7 @@ func (db *DB) OpenTransaction() (*Transaction, error) {
 	// Flush current memdb.
 	if db.mem != nil && db.mem.Len() != 0 {
 		if _, err := db.rotateMem(0, true); err != nil {
+			<-db.writeLockC
 			return nil, err
 		}
 	} else if err := db.compTriggerWait(db.mcompCmdC); err != nil {
@@ -333,6 +334,7 @@ func (db *DB) OpenTransaction() (*Transaction, error) {
 
 	// Wait compaction when certain threshold reached.
 	if err := db.waitCompaction(); err != nil {
+		<-db.writeLockC
 		return nil, err
 	}
 
